@@ -18,8 +18,13 @@ TRUSTED = [
     "python generator and direct oracle",
     "semver.Maven (ParseConstraint/IsSimple/Match) and resolve.SortVersions enter the MODEL as oracle tables computed by the Go code itself; "
     "the DIRECT ORACLE does not trust them: range membership and soft/range classification are re-decided by an independent python "
-    "evaluator of Maven range specifications on dotted-numeral versions (integer tuples), and every recorded library answer inside "
-    "that domain is compared with it",
+    "evaluator of Maven range specifications on dotted-numeral versions with the standard qualifiers (alpha < beta < milestone < "
+    "rc < snapshot < release < sp), every recorded library answer inside that domain is compared with it, and the selected "
+    "version of every artifact is compared with a python findMatch on the final requirement list",
+    "an incompatible-requirements outcome is re-judged by the model on the complete client table of the universe with a retry "
+    "bound of max(10 x maven_max_retries, 1000) (probe stopping early when an incompatible pass met no new requirement)",
+    "every 6th recorded table is perturbed into an ill-behaved client (lost Requirements answers, failing/shortened/reordered "
+    "Versions answers, Version answers for another version of the package) and run through resolver and model",
 ]
 ASSUMPTIONS = [
     "model validated against the implementation by execution on generated universes (same client table on both sides), "
@@ -77,6 +82,8 @@ VERSION_POOLS = [
     [b"1.0", b"1.1", b"2.0", b"2.1"],
     [b"0.9", b"1.0", b"1.5", b"3.0"],
     [b"1.0.0", b"1.2.0", b"2.0.0", b"2.0.1"],
+    [b"1.0-alpha", b"1.0-rc1", b"1.0", b"1.0-sp"],
+    [b"1.0-SNAPSHOT", b"1.0", b"1.1-rc2", b"2.0-beta1"],
 ]
 
 
@@ -328,15 +335,31 @@ def canon_type(t):
 # specification is silent) is outside the domain: the functions answer None and the oracle does not judge.
 import re  # noqa: E402
 
-NUM = re.compile(rb"^[0-9]+(\.[0-9]+)*$")
+VER = re.compile(rb"^([0-9]+(?:\.[0-9]+)*)(?:-([A-Za-z]+)([0-9]*))?$")
+# the standard qualifiers of Maven's ComparableVersion, below and above a release (rank 6)
+QUALIFIER_RANK = {b"alpha": 1, b"beta": 2, b"milestone": 3, b"rc": 4, b"cr": 4, b"snapshot": 5, b"sp": 7}
+
+
 def vt(s):
-    """dotted numeric version -> tuple of ints without trailing zeros; None outside the domain"""
-    if not NUM.match(s) or len(s) > 40:
+    """version -> sort key (numerals without trailing zeros, qualifier rank, qualifier number); None outside the
+    domain.  Domain: dotted numerals, optionally followed by ONE '-qualifier[number]' with a standard qualifier
+    (1.0-alpha < 1.0-rc1 < 1.0-SNAPSHOT < 1.0 < 1.0-sp; numerals before a qualifier lose their trailing zeros as
+    in ComparableVersion, and a longer numeral list beats any qualifier at the position where it continues)."""
+    m = VER.match(s)
+    if not m or len(s) > 40:
         return None
-    t = [int(x) for x in s.split(b".")]
+    t = [int(x) for x in m.group(1).split(b".")]
     while t and t[-1] == 0:
         t.pop()
-    return tuple(t)
+    rank, num = 6, 0
+    if m.group(2) is not None:
+        rank = QUALIFIER_RANK.get(m.group(2).lower())
+        if rank is None:
+            return None
+        num = int(m.group(3)) if m.group(3) else 0
+    return (tuple(t), rank, num)
+
+
 def parse_req(s):
     """('soft', v) | ('ranges', [(lo, lo_incl, hi, hi_incl)...]) | None (outside the domain)"""
     if not s:
@@ -371,13 +394,14 @@ def parse_req(s):
                 return None
             lo = lo if parts[0] else None
             hi = hi if parts[1] else None
+            zero = lambda k: k is not None and k[0] == ()
             if lo is None and hi is None:
                 return None
             if lo is not None and hi is not None and (lo > hi or (lo == hi and not (lo_incl and hi_incl))):
                 return None
             if lo is None and lo_incl or hi is None and hi_incl:
                 return None
-            if hi == () and not hi_incl or lo == () :
+            if zero(hi) and not hi_incl or zero(lo):
                 return None          # bounds equal to 0: known deviations of the span algebra, kept out
             out.append((lo, lo_incl, hi, hi_incl))
         else:
@@ -394,7 +418,7 @@ def matches(req, ver):
     """True/False, or None when requirement or version is outside the evaluator's domain"""
     p = parse_req(req)
     v = vt(ver)
-    if p is None or p[0] != "ranges" or v is None or v == ():
+    if p is None or p[0] != "ranges" or v is None or v[0] == ():
         return None
     for lo, li, hi, hi_i in p[1]:
         ok = True
@@ -491,8 +515,14 @@ def range_oracle(universe, root, obs, table):
     return hits
 
 
-def oracle(universe, root, obs, table, passes):
-    """Evaluate every clause of C07 on the implementation's graph. Returns a list of Hit."""
+def oracle(universe, root, obs, table, passes, stats=None):
+    """Evaluate every clause of C07 on the implementation's graph. Returns a list of Hit.  stats (a dict) receives
+    activation counts: how often a clause had something to decide in this graph."""
+    if stats is None:
+        stats = {}
+
+    def act(key):
+        stats[key] = stats.get(key, 0) + 1
     hits = range_oracle(universe, root, obs, table)
     if obs[0] != b"ok":
         return hits
@@ -604,6 +634,9 @@ def oracle(universe, root, obs, table, passes):
     # ---- clause: war/ear/rar not traversed
     for n in nodes:
         cs = creator.get(n, [])
+        if n != rootn and cs and all(c["td"].get(K_TYPE) in WARISH for c in cs) and \
+                any(K_ORIGIN not in tdict(d[2]) for d in decls.get(n, [])):
+            act("war_node_with_declarations")
         if n != rootn and cs and all(c["td"].get(K_TYPE) in WARISH for c in cs) and out.get(n):
             hits.append(Hit("no_traverse_war", "node created as war/ear/rar has outgoing edges",
                             {"node": n, "out": [(e["to"], e["req"]) for e in out[n]]}))
@@ -622,6 +655,8 @@ def oracle(universe, root, obs, table, passes):
                                 "(management must only override transitive declarations)",
                                 {"from": e["from"], "to": e["to"], "req": e["req"], "managed": mgt.get(k)}))
         elif k in mgt:
+            if any(d[0] == e["to"][0] and canon_type(d[2]) == e["bare"] and d[1] != mgt[k] for d in ds):
+                act("management_overrode_a_transitive_declaration")
             if e["req"] != mgt[k]:
                 hits.append(Hit("management", "transitive declaration of an artifact the root manages keeps its own version",
                                 {"from": e["from"], "to": e["to"], "req": e["req"], "managed": mgt[k]}))
@@ -757,8 +792,10 @@ def oracle(universe, root, obs, table, passes):
             if K_ORIGIN in td:
                 continue
             if n != rootn and (K_TEST in td or K_OPT in td or td.get(K_SCOPE) == b"provided"):
+                act("root_only_scope_skipped_a_declaration")
                 continue
             if excluded(ex, nm):
+                act("exclusion_removed_a_declaration")
                 continue
             k = art_key(nm, td)
             eff = mgt[k] if (n != rootn and k in mgt) else ver
@@ -836,8 +873,22 @@ def run_universes(ctx, universes, label):
         if norm_obs(sx(res)) != norm_obs(mline) and '"oom"' not in mline:
             ctx.violation("the resolution with the proved fuel bound differs from the resolution with large fuel",
                           {"case": c, "bound": bound}, observed=sx(res), required=mline)
+    # the theorems hold for EVERY client: every 6th recorded table is perturbed into an ill-behaved client and the
+    # real resolver on it must not panic and must agree with the model
+    mut = []
+    for c in live[::6]:
+        r0, tb = parse_sx(c)
+        mut.append(sx([r0, mutate_table(ctx.rng, tb)]))
+    if mut:
+        mi, mm = ctx.correspond("maven", mut, label="mutated_tables", compare=same_obs)
+        for c, x in zip(mut, mi):
+            ctx.count("mutated:" + (x[:14] if x.startswith('("err"') else x.split(" ")[0][:10]))
+            if x.startswith('("panic"'):
+                ctx.violation("maven resolver panicked on an ill-behaved client (mutated table)", {"case": c}, observed=x)
     it = iter(zip(impl2, model))
     pending = []
+    incompat, mixed = [], []
+    stats = {}
     for (ui, root), p, c in zip(metas, parsed, cases):
         if p is None:
             continue
@@ -864,7 +915,11 @@ def run_universes(ctx, universes, label):
                 ctx.count("graphs_with_node_errors")
             if any(s == 0 for _, s in table[3]):
                 ctx.count("cases_with_ranges")
-        for h in oracle(u, root, obs, table, passes):
+        if obs[0] == b"err" and obs[1] == b"incompatible" and agree:
+            incompat.append((c, u, root))
+        if obs[0] == b"ok" and agree and any((parse_req(e[2]) or ("x",))[0] == "ranges" for e in obs[2]):
+            mixed.append((c, u, root, obs))
+        for h in oracle(u, root, obs, table, passes, stats):
             ctx.count("oracle_hit:" + h.clause)
             inp = {"kind": "maven_rec", "arg": sx([u, list(root)]), "clause": h.clause}
             viol = dict(what=h.what, input=inp, observed={"detail": lib.jsonable(h.detail), "graph": sx(obs)},
@@ -878,6 +933,32 @@ def run_universes(ctx, universes, label):
         if len(ctx.samples) < 3 and obs[0] == b"ok" and len(obs[1]) >= 5:
             ctx.sample({"kind": "maven_rec", "root": lib.jsonable(list(root)), "universe": sx(u)[:600], "graph": sx(obs)[:600]})
     classify_stale(ctx, pending)
+    for k, v in stats.items():
+        ctx.count("active:" + k, v)
+    # an incompatible-requirements error must be forced by the universe, not by the retry bound: the model is run
+    # again with a retry bound of max(10 x maven_max_retries, 1000); a graph there means versions CAN satisfy
+    if incompat:
+        # on the COMPLETE table of the universe (kind maven_full), not on the calls this run happened to make
+        fulls = {}
+        for _, u, _ in incompat:
+            fulls.setdefault(id(u), u)
+        ftab = dict(zip(fulls.keys(), ctx.impl("maven_full", [sx([u]) for u in fulls.values()])))
+        probe = [sx([[MAVEN, root[0], CONCRETE, root[1]], parse_sx(ftab[id(u)])]) for _, u, root in incompat]
+        for (c, u, root), line in zip(incompat, ctx.model("maven_retry", probe)):
+            ctx.count("retry_rerun:" + ("graph" if line.startswith('("ok"') else line[:22]))
+            if line.startswith('("ok"'):
+                ctx.violation("the incompatible-requirements error is reported although the resolution finds a graph when "
+                              "the retry loop is allowed more passes (versions can satisfy the requirements)",
+                              {"kind": "maven_rec", "arg": sx([u, list(root)]), "clause": "no_match_reported"},
+                              observed='("err" "incompatible")', required=line[:1500])
+    # which version is selected, for every number of passes: python findMatch on the final requirement lists
+    if mixed:
+        for (c, u, root, obs), line in zip(mixed, ctx.model("maven_reqs", [c for c, _, _, _ in mixed])):
+            ctx.count("selection_checked")
+            for h in selection_hits(u, root, obs, line):
+                ctx.count("oracle_hit:selection")
+                ctx.violation(h.what, {"kind": "maven_rec", "arg": sx([u, list(root)]), "clause": "selection"},
+                              observed={"detail": lib.jsonable(h.detail), "graph": sx(obs)}, required="clause nearest of C07")
     # minimise the first new violation of each clause (only ever runs when something is wrong)
     done = set()
     for v in ctx.violations:
@@ -894,6 +975,127 @@ def run_universes(ctx, universes, label):
             inp["minimal_graph"] = sx(parse_sx(out)[1])
         except Exception as e:  # shrinking is best effort
             inp["minimal_error"] = repr(e)
+
+
+def py_find_match(reqs, vers):
+    """findMatch re-stated with the independent evaluator: the soft versions in encounter order, the highest listed
+    version inside all ranges at the position of the first range.  Returns a version, "NOMATCH", or None when
+    something is outside the evaluator's domain (or a tie / a soft version the package does not have)."""
+    kinds = [parse_req(r) for r in reqs]
+    if not reqs or any(k is None for k in kinds):
+        return None
+    softs = [r for r, k in zip(reqs, kinds) if k[0] == "soft"]
+    hards = [r for r, k in zip(reqs, kinds) if k[0] == "ranges"]
+    hidx = next((i for i, k in enumerate(kinds) if k[0] == "ranges"), None)
+
+    def all_in(v):
+        ms = [matches(h, v) for h in hards]
+        return None if any(m is None for m in ms) else all(ms)
+
+    def listed():
+        ins = [(v, all_in(v)) for v in vers]
+        if any(a is None for _, a in ins):
+            return None
+        cands = [v for v, a in ins if a]
+        if not cands:
+            return "none"
+        top = max(vt(v) for v in cands)
+        tops = [v for v in cands if vt(v) == top]
+        return tops[0] if len(tops) == 1 else None
+    for i, sv in enumerate(softs):
+        if hidx is not None and i == hidx:
+            li = listed()
+            if li is None:
+                return None
+            if li != "none":
+                return li
+        a = all_in(sv) if hards else True
+        if a is None:
+            return None
+        if a:
+            return sv if sv in vers else None
+    if hidx is not None and len(softs) == hidx:
+        li = listed()
+        if li is None:
+            return None
+        if li != "none":
+            return li
+    return "NOMATCH"
+
+
+def selection_hits(universe, root, obs, reqs_line):
+    """For every artifact of the graph, the selected version against py_find_match on the FINAL requirement list of
+    the artifact (the model's, fetched with maven_reqs; it is the list the last declaration was processed with),
+    whatever the number of passes."""
+    hits = []
+    try:
+        final = {(nm, cls, typ): list(lst) for nm, cls, typ, lst in parse_sx(reqs_line)}
+    except Exception:
+        return hits
+    uvers = {nm: [v for v, _ in vl] for nm, vl in universe}
+    rootart = (root[0], b"", b"")
+    err_names = set(r[1] for _, r, _ in obs[3])
+    byart = {}
+    for f, t, req, ty in obs[2]:
+        byart.setdefault(art_key(t[1], tdict(ty)), set()).add(t[3])
+    for k, sel in byart.items():
+        if k == rootart or k[0] in err_names or len(sel) != 1 or k not in final:
+            continue
+        want = py_find_match(final[k], uvers.get(k[0], []))
+        if want is None:
+            continue
+        got = next(iter(sel))
+        if want != got:
+            hits.append(Hit("nearest", "the selected version is not the one the requirement list of the artifact selects "
+                            "(soft versions in the order met, else the highest version inside all ranges)",
+                            {"artifact": k, "requirements": final[k], "selected": got, "expected": want}))
+    return hits
+
+
+def mutate_table(rng, table):
+    """the recorded answers of a LocalClient turned into those of an ill-behaved client: a Requirements answer lost
+    (not found / error), a Versions answer failing, shortened or reordered, a Version answer missing or carrying
+    ANOTHER version of the same package (same package, so that the tabulated semver answers still cover every pair
+    the resolver can ask about)"""
+    vers, vlists, reqs, simple, match, less = [list(t) for t in table]
+    by_name = {}
+    for key, ans in vers:
+        if ans[0] == b"ok":
+            by_name.setdefault(key[1], []).append(ans[1])
+    for key, ans in vlists:
+        if ans[0] == b"ok":
+            for v in ans[1]:
+                by_name.setdefault(key[1], []).append(v)
+    for _ in range(rng.choice([1, 1, 2])):
+        r = rng.random()
+        if r < 0.4 and reqs:
+            i = rng.randrange(len(reqs))
+            if len(reqs) > 1 and rng.random() < 0.8:
+                i = rng.randrange(1, len(reqs))          # entry 0 is the root's own answer
+            reqs[i] = [reqs[i][0], [rng.choice([b"nf", b"nf", b"err"])]]
+        elif r < 0.7 and vlists:
+            i = rng.randrange(len(vlists))
+            key, ans = vlists[i]
+            q = rng.random()
+            if q < 0.5 or ans[0] != b"ok":
+                vlists[i] = [key, [rng.choice([b"err", b"nf"])]]
+            elif q < 0.75 and ans[1]:
+                items = list(ans[1])
+                items.pop(rng.randrange(len(items)))
+                vlists[i] = [key, [b"ok", items]]
+            else:
+                items = list(ans[1])
+                rng.shuffle(items)
+                vlists[i] = [key, [b"ok", items]]
+        elif vers:
+            i = rng.randrange(len(vers))
+            key, ans = vers[i]
+            others = [v for v in by_name.get(key[1], []) if v[0] != key]
+            if others and rng.random() < 0.7:
+                vers[i] = [key, [b"ok", rng.choice(others)]]
+            else:
+                vers[i] = [key, [b"nf"]]
+    return [vers, vlists, reqs, simple, match, less]
 
 
 def removals(u, root):
@@ -1159,6 +1361,13 @@ def run(ctx):
         run_universes(ctx, us, "universes")
         run_sequences(ctx, [(u, seq) for u in us for seq in pick_sequences(rng, u)])
         done += len(us)
+    # every clause must have had something to decide (a generator that stops exercising a clause must not pass)
+    for key in ("management_overrode_a_transitive_declaration", "exclusion_removed_a_declaration",
+                "war_node_with_declarations", "root_only_scope_skipped_a_declaration"):
+        if not ctx.replay and ctx.dist.get("active:" + key, 0) == 0:
+            ctx.violation("generator degenerate: no generated resolution exercised the clause (%s)" % key, {"counter": key})
+    if not ctx.replay and ctx.dist.get("selection_checked", 0) == 0:
+        ctx.violation("generator degenerate: no graph with a range edge", {"counter": "selection_checked"})
     # violations that carry a minimised universe go first in the replay
     ctx.violations.sort(key=lambda v: 0 if isinstance(v.get("input"), dict) and "minimal" in v["input"] else 1)
     ok = ctx.dist.get("outcome:ok", 0)
